@@ -184,11 +184,9 @@ class TestCaseMutation(MutationOperator):
         """
         changed = False
         alpha = config.configuration.search_algorithm.statement_insertion_probability
+        max_length = config.configuration.search_algorithm.chromosome_length
         exponent = 1
-        while (
-            randomness.next_float() <= pow(alpha, exponent)
-            and chromosome.size() < config.configuration.search_algorithm.chromosome_length
-        ):
+        while randomness.next_float() <= pow(alpha, exponent) and chromosome.size() < max_length:
             test_factory = chromosome.test_factory
             assert test_factory, "Mutation requires a test factory."
             max_position = chromosome.get_last_mutatable_statement()
@@ -199,8 +197,21 @@ class TestCaseMutation(MutationOperator):
                 # Also include the position after the last mutatable statement.
                 max_position += 1
 
-            position = test_factory.insert_random_statement(chromosome.test_case, max_position)
+            test_case = chromosome.test_case
+            previous_statements = test_case.statements()
+            position = test_factory.insert_random_statement(test_case, max_position)
             exponent += 1
+            if test_case.size() > max_length:
+                # One insertion adds the call together with the statements that create
+                # its receiver and arguments, which can be more than the room that was
+                # left.  Take the whole insertion back to respect the maximum length.
+                kept = {id(statement) for statement in previous_statements}
+                test_case.remove_statements_batch({
+                    idx
+                    for idx, statement in enumerate(test_case.statements())
+                    if id(statement) not in kept
+                })
+                break
             if 0 <= position < chromosome.size():
                 changed = True
         return changed
